@@ -71,9 +71,7 @@ def r1(ctx, R):
             lp = enclosing_for(ini, c)
             if k != "trace" or lp is None or not isinstance(lp.target, ast.Name):
                 continue
-            it = q.origin(ini, lp.iter)
-            if isinstance(it, ast.Call) and isinstance(it.func, ast.Name) and it.func.id in ("list", "tuple", "set", "sorted") and it.args:
-                it = q.origin(ini, it.args[0])
+            it, _ = q.unsnapshot(ini, lp.iter)
             if isinstance(it, ast.Call) and isinstance(it.func, ast.Attribute) and it.func.attr == "keys":
                 it = it.func.value
             if norm(it) in ("self.input_keys", "self.data", "data") and [norm(a) for a in c.args] == ["(self, %s)" % lp.target.id] \
@@ -229,7 +227,9 @@ def r3(ctx, R):
     R.inst("append: three idxstack arms (cached -> own index; uncached -> caller's; bottom -> -1)")
     got = {}
     for c in arms:
-        got[q.rnorm(ap, c.args[0])] = {(q.rnorm(ap, ast.parse(t, mode="eval").body), l) for t, l in q.guards_of(ap, c)}
+        base = {(q.rnorm(ap, ast.parse(t, mode="eval").body), l) for t, l in q.guards_of(ap, c)}
+        for val, extra in q.arms(ap, c.args[0]):        # a hoisted append(idx) with idx chosen per branch
+            got[q.rnorm(ap, val)] = base | {(q.rnorm(ap, ast.parse(t, mode="eval").body), l) for t, l in extra}
     R.slot("idxstack_arms", {k: sorted(v) for k, v in got.items()})
     SL = "len(self)"
     ok = (set(got) == {SL, "self.idxstack[-1]", "-1"}
